@@ -480,7 +480,60 @@ def special_stage(res: Result, ctx: Ctx, srcdir: Path) -> None:
         res.transitions += 6
         for kind, sig, msg in check_subset(text, mod, metas, tuple(order))[:2]:
             res.violate(Violation(ID, kind, "same-named:" + sig, case, f"functions all named `same`, trace order {order}: " + msg))
+        # the same traces through the other entry point (a StubIndexBuilder used as the tracing logger)
+        try:
+            from monkeytype.stubs import StubIndexBuilder
+
+            sib_same = StubIndexBuilder(".*", 0)
+            for t in tr:
+                sib_same.log(t)
+            text_sib = sib_same.get_stubs()[modname].render()
+        except Exception as e:  # noqa: BLE001
+            res.violate(Violation(ID, "exception", "StubIndexBuilder:" + type(e).__name__, case, f"same-named functions via StubIndexBuilder: raised {e!r}"))
+            continue
+        res.transitions += 6
+        for kind, sig, msg in check_subset(text_sib, mod, metas, tuple(order))[:2]:
+            res.violate(Violation(ID, kind, "same-named:StubIndexBuilder:" + sig, case, f"functions all named `same`, trace order {order}, via StubIndexBuilder: " + msg))
     res.oblige("special:same-named-functions", True)
+    # a long-lived StubIndexBuilder across an edit of the source: traces of version 1 arrive, the module is edited and
+    # reloaded, traces of version 2 arrive - the stub mirrors the function as it is NOW (the real function)
+    import importlib as il
+
+    from monkeytype.stubs import StubIndexBuilder
+    from monkeytype.tracing import CallTrace
+
+    rname = f"c12reload_{ctx.seed}"
+    versions = ["def f(a, b=1):\n    return a\n\n\nclass R:\n    def m(self, x):\n        return x\n",
+                "def f(a, /, b=1, *args, c=None, **kw):\n    return a\n\n\nclass R:\n    def m(self, x, *, y=2):\n        return x\n",
+                "def f(a):\n    return a\n\n\nclass R:\n    @staticmethod\n    def m(x, y=2):\n        return x\n"]
+    rmetas_by_version = [
+        [{"idx": 0, "path": (), "name": "f", "kind": "function", "params": (), "names": [], "recv": ""}, {"idx": 1, "path": ("R",), "name": "m", "kind": "instance", "params": (), "names": [], "recv": "self"}],
+        [{"idx": 0, "path": (), "name": "f", "kind": "function", "params": (), "names": [], "recv": ""}, {"idx": 1, "path": ("R",), "name": "m", "kind": "instance", "params": (), "names": [], "recv": "self"}],
+        [{"idx": 0, "path": (), "name": "f", "kind": "function", "params": (), "names": [], "recv": ""}, {"idx": 1, "path": ("R",), "name": "m", "kind": "staticmethod", "params": (), "names": [], "recv": ""}],
+    ]
+    sib_r = StubIndexBuilder(rname, 0)
+    rmod = None
+    for vi, vsrc in enumerate(versions):
+        (srcdir / f"{rname}.py").write_text(vsrc + f"# version {vi}\n" * (vi + 1))
+        il.invalidate_caches()
+        rmod = il.import_module(rname) if rmod is None else il.reload(rmod)
+        res.states += 1
+        res.transitions += 2
+        res.evaluations += 1
+        res.validated += 1
+        case = {"module_index": -7, "subset": [vi], "tier": ctx.tier}
+        try:
+            raw_m = inspect.getattr_static(rmod.R, "m")
+            fm = raw_m.__func__ if isinstance(raw_m, staticmethod) else raw_m
+            sib_r.log(CallTrace(rmod.f, {"a": int}, int, None))
+            sib_r.log(CallTrace(fm, {"x": int} if vi == 2 else {"self": rmod.R, "x": int}, int, None))
+            text_r = sib_r.get_stubs()[rname].render()
+        except Exception as e:  # noqa: BLE001
+            res.violate(Violation(ID, "exception", "StubIndexBuilder-across-reload:" + type(e).__name__, case, f"version {vi}: raised {e!r}"))
+            continue
+        for kind, sig, msg in check_subset(text_r, rmod, rmetas_by_version[vi], (0, 1))[:2]:
+            res.violate(Violation(ID, kind, "StubIndexBuilder-across-reload:" + sig, case, f"one StubIndexBuilder, source edited and reloaded (now version {vi}): " + msg + "\n" + text_r))
+    res.oblige("special:index-across-reload", True)
     # partially annotated sources under the three existing-annotation strategies: names, kinds, order and presence of
     # defaults mirror the real function whatever happens to the annotations (which C13 judges)
     from monkeytype.stubs import ExistingAnnotationStrategy
@@ -690,7 +743,7 @@ def run(ctx: Ctx) -> Result:
         return res
 
     res = run_shards(ctx, shard, list(range(nshards)))
-    for o in ("saw:StubIndexBuilder", "special:same-named-functions", "special:annotated-sources-x-strategies", "special:descriptor-subclasses", "special:non-identifier-dict-keys", "special:wrapped-coroutines-and-traced-properties", "special:interleaved-modules", "saw:wrapped-signature", "saw:posonly-separator", "saw:kwonly-separator", "saw:async"):
+    for o in ("saw:StubIndexBuilder", "special:same-named-functions", "special:index-across-reload", "special:annotated-sources-x-strategies", "special:descriptor-subclasses", "special:non-identifier-dict-keys", "special:wrapped-coroutines-and-traced-properties", "special:interleaved-modules", "saw:wrapped-signature", "saw:posonly-separator", "saw:kwonly-separator", "saw:async"):
         res.obligations.setdefault(o, False)
     res.bounds.update({"max_params": "4 (+5 for function, instance, async static)" if ctx.tier == "thorough" else "3 (+4 for function/instance)", "modules": len(gs), "functions_per_module": 5, "subsets": "all 31"})
     return res
